@@ -35,8 +35,6 @@ def plan(tier):
     iid = 1
     for src, dst, f in ROUND_PAIRS:
         for rep in ROUND_REPS:
-            if tier == "quick" and rnd.random() < 0.35:
-                continue
             inst.append({"id": iid, "kind": "round", "code": f'vfm15::run_rounding<{src}, {rep}, {dst}>(ID, "{src}->{dst}:{rep}", {f}, nrandom, seed ^ ID);'})
             iid += 1
     for src, dst, f, off in ROUND_PT_PAIRS:
@@ -58,7 +56,7 @@ def plan(tier):
         for rep in ("int32_t", "int64_t", "uint64_t", "float", "double"):
             if rep in INT_MAX and K > INT_MAX[rep]:
                 continue
-            if tier == "quick" and rnd.random() < 0.7:
+            if tier == "quick" and rnd.random() < 0.5:
                 continue
             implicit = "true" if (rep not in INT_MAX or K >= 10 ** 6) else "false"
             inst.append({"id": iid, "kind": "inv", "code": f'vfm15::Inv<{src}, {rep}, {dst}, {implicit}>::run(ID, "inverse {src}->{dst}:{rep} K={K}", {K}ull, {K}.0L, nrandom, seed ^ ID);'})
